@@ -1,20 +1,42 @@
 ---------------------------- MODULE MC_Geometry ----------------------------
 (* Evaluates Geometry!Compute over a lattice of configurations (one TLC state per configuration) and checks the
-   arithmetic invariants, plus the closed form of the backup-group set for all group counts up to 400.            *)
-EXTENDS Geometry
+   arithmetic invariants, plus the closed form of the backup-group set for all group counts up to 400.  The lattice
+   includes sparse_super2 with and without resize_inode for every num_backup_sb, and -E resize= targets.  It also
+   writes the boundary catalogue (Ss2Cells, OptionCells) the conformance universe of checks/c07.py is enumerated from. *)
+EXTENDS Geometry, Json, IOUtils
 CONSTANTS Sizes
 VARIABLE c
 BS == {1024, 2048, 4096}
 CfgSpace == [bs : BS, blocks : Sizes, iratio : {4096, 16384, 65536}, isz : {128, 256}, bpg : {0, 256, 1024},
-             resize : BOOLEAN, sparse : BOOLEAN, ss2 : BOOLEAN, metabg : BOOLEAN, is64 : BOOLEAN, ninodes : {0}]
+             resize : BOOLEAN, sparse : BOOLEAN, ss2 : BOOLEAN, metabg : BOOLEAN, is64 : BOOLEAN, ninodes : {0},
+             nbsb : NumBackupSb, rszfac : {0, 3, 40}]
 Valid(x) == /\ (x.bpg = 0 \/ x.bpg <= x.bs * 8)
             /\ ~(x.metabg /\ x.resize)
             /\ (x.ss2 => x.sparse)
+            /\ (~x.ss2 => x.nbsb = 2)                                         \* num_backup_sb only matters with sparse_super2
+            /\ (x.rszfac # 0 => ~x.metabg /\ ~x.ss2 /\ x.iratio = 16384)      \* -E resize= switches resize_inode on: not with meta_bg
             /\ x.blocks * (x.bs \div 1024) <= 65536                          \* images <= 64 MiB
-Init == c \in {x \in CfgSpace : Valid(x)}
+CfgAt(x) == [bs |-> x.bs, blocks |-> x.blocks, iratio |-> x.iratio, isz |-> x.isz, bpg |-> x.bpg, resize |-> x.resize,
+             sparse |-> x.sparse, ss2 |-> x.ss2, metabg |-> x.metabg, is64 |-> x.is64, ninodes |-> x.ninodes,
+             nbsb |-> x.nbsb, rszto |-> x.rszfac * x.blocks, dev |-> FALSE]
+Init == c \in {CfgAt(x) : x \in {y \in CfgSpace : Valid(y)}}
 Next == UNCHANGED c
 Spec == Init /\ [][Next]_c
 Inv == GeometryOK(c, Compute(c))
 NoLoop == Compute(c).err # "loop"
+\* the resize inode of every geometry is well formed: distinct slots, blocks inside group 0 behind the descriptors, list positions 1..n
+ResizeInodeOK ==
+   LET g == Compute(c) IN
+   g.err = "" /\ g.rsv > 0 =>
+      /\ Cardinality(ResizeDindMap(c.bs, g)) = g.rsv
+      /\ Cardinality({m[1] : m \in ResizeDindMap(c.bs, g)}) = g.rsv
+      /\ \A m \in ResizeDindMap(c.bs, g) : m[2] > g.first + g.descb /\ m[2] < g.first + g.bpg
+      /\ {e[1] : e \in ResizeBackupList(g)} = 1..(Cardinality(g.backups) - 1)
+      /\ \A e \in ResizeBackupList(g) : e[2] \div g.bpg \in g.backups \ {0}
 ASSUME BackupsClosedForm
+ASSUME \A nb \in NumBackupSb, n \in 1..40 : LET s == Ss2Slots(nb, n) IN s[1] <= s[2] /\ s[2] < n /\ Cardinality(Ss2Backups(s)) = 1 + Min(nb, n - 1)
+SetToSeqOf(S) == LET RECURSIVE F(_) F(T) == IF T = {} THEN <<>> ELSE LET x == CHOOSE y \in T : TRUE IN <<x>> \o F(T \ {x}) IN F(S)
+ASSUME "C07_CATALOGUE" \notin DOMAIN IOEnv \/ IOEnv.C07_CATALOGUE = "" \/
+       JsonSerialize(IOEnv.C07_CATALOGUE, [ss2 |-> SetToSeqOf(Ss2Cells), options |-> SetToSeqOf(OptionCells), raid |-> SetToSeqOf(RaidCells),
+                                           quota |-> SetToSeqOf({SetToSeqOf(q) : q \in QuotaCells}), usage |-> SetToSeqOf(UsageCells)])
 =============================================================================
